@@ -342,13 +342,43 @@ func (c *Ctx) checkTagConflict(r *Report, fns []*ssa.Function, tagTable ssa.Valu
 		}
 	}
 	var tagUpds []*ssa.MapUpdate
+	isCell := func(v ssa.Value) bool {
+		if cell == nil {
+			return false
+		}
+		if v == cell {
+			return true
+		}
+		if fv, ok := v.(*ssa.FreeVar); ok {
+			if a, _ := freeVarCell(fv); a != nil && ssa.Value(a) == cell {
+				return true
+			}
+		}
+		return false
+	}
 	for _, mu := range upds {
-		if ld, ok := mu.Map.(*ssa.UnOp); ok && cell != nil && ld.X == cell {
+		if ld, ok := mu.Map.(*ssa.UnOp); ok && isCell(ld.X) {
 			tagUpds = append(tagUpds, mu)
 		}
 	}
+	// the table is filled while the configuration is read; matching must not write to it
+	var cfgUpds []*ssa.MapUpdate
+	for _, mu := range tagUpds {
+		if mu.Parent().Parent() == nil {
+			cfgUpds = append(cfgUpds, mu)
+		} else if len(mu.Parent().Params) > 0 && mu.Key == ssa.Value(mu.Parent().Params[0]) {
+			// memoising the answer for exactly the string that was asked is behaviour-preserving
+			r.OK("C02.table-readonly:"+fname(mu.Parent())+"#memo", "the matcher caches its result under its own unmodified argument")
+		} else {
+			r.Fail("C02.table-readonly:"+fname(mu.Parent()), c.instrPos(mu), "the tag → logger table is written during matching (in %s): what a tag resolves to then depends on which tags were resolved before it, i.e. on map iteration order", fname(mu.Parent()))
+		}
+	}
+	if len(cfgUpds) == len(tagUpds) {
+		r.OK("C02.table-readonly:Refresh", "the tag → logger table is written only while the configuration is read (%d site), never by the matcher", len(cfgUpds))
+	}
+	tagUpds = cfgUpds
 	if len(tagUpds) != 1 {
-		r.Undecided(key, "", "expected one store into the tag → logger table, found %d", len(tagUpds))
+		r.Undecided(key, "", "expected one store into the tag → logger table while reading the configuration, found %d", len(tagUpds))
 		return
 	}
 	mu := tagUpds[0]
